@@ -147,6 +147,7 @@ pub fn direct(prop: &str, tier: Tier, caps: &Caps) -> Vec<FamilyReport> {
         "C10" => crate::d_c10::run(tier, caps),
         "C14" => crate::d_c14::run(tier, caps),
         "C17" => crate::d_c17::run(tier, caps),
+        "C18" => crate::d_c18::run(tier, caps),
         "C19" => crate::d_c19::run(tier, caps),
         "C20" => crate::d_c20::run(tier, caps),
         _ => vec![],
@@ -160,6 +161,8 @@ pub fn replay_case(name: &str, case: &Value) -> Option<CaseOut> {
         crate::d_c09::replay(name, case)
     } else if name.starts_with("C14") {
         crate::d_c14::replay(name, case)
+    } else if name.starts_with("C18") {
+        crate::d_c18::replay(name, case)
     } else if name.starts_with("C19") {
         crate::d_c19::replay(name, case)
     } else if name.starts_with("C20") {
